@@ -16,6 +16,7 @@
  *   ST0 <hex20>        x87 st(0) at the next exit (10 bytes, little endian hex)
  *   STR <slot> <hex|-> define C string <slot> (bytes + NUL)            -> "ok addr=<hex>"
  *   STRW <slot> <hex|-> same, placed so that the NUL is the last byte of a readable page
+ *   STRAT <hexaddr> <hex|-> write bytes + NUL at an absolute address (wall / hole areas)   -> "ok addr=<hex>"
  *   OBJ <slot> <hexptr> std::string object whose _M_dataplus is <hexptr> -> "ok addr=<hex>"
  *   E <fn>             mcount_entry(f<fn>)   -> "rc= hij= idx= xc=<mask of xmm registers changed by the hook> arg=<flag> sz=<size field> mem=<hex>"
  *   X                  mcount_exit           -> "ret= rvf=<flag> sz= mem=<hex> recs=<hex>"
@@ -26,6 +27,7 @@
 #define _GNU_SOURCE
 #include <errno.h>
 #include <pthread.h>
+#include <signal.h>
 #include <stdint.h>
 #include <stdio.h>
 #include <stdlib.h>
@@ -128,6 +130,19 @@ static char wallarea[3 * 4096] __attribute__((aligned(4096)));
 static char *wallpage;
 static long objpool[NSLOT][4];
 
+/* three pages at a fixed address: readable, unmapped (a hole), readable */
+#define HOLE_BASE 0x30000000UL
+static unsigned long holepage;
+
+static volatile int cur_opno;
+static void crash_handler(int sig)
+{
+	/* the property: an unreadable string pointer must not fault the traced program */
+	printf("\n%d CRASH sig=%d\n", cur_opno, sig);
+	fflush(stdout);
+	_exit(77);
+}
+
 static unsigned char fillb;
 static unsigned char *bigbuf;
 static int maxstack;
@@ -180,6 +195,21 @@ int main(void)
 	setvbuf(stdout, NULL, _IOFBF, 1 << 16);
 	maxstack = getenv("UFTRACE_MAX_STACK") ? atoi(getenv("UFTRACE_MAX_STACK")) : 1024;
 
+	{
+		struct sigaction sa;
+
+		memset(&sa, 0, sizeof(sa));
+		sa.sa_handler = crash_handler;
+		sigaction(SIGSEGV, &sa, NULL);
+		sigaction(SIGBUS, &sa, NULL);
+	}
+	{
+		void *h = mmap((void *)HOLE_BASE, 3 * page, PROT_READ | PROT_WRITE,
+			       MAP_PRIVATE | MAP_ANONYMOUS | MAP_FIXED_NOREPLACE, -1, 0);
+
+		if (h == (void *)HOLE_BASE && munmap((char *)h + page, page) == 0)
+			holepage = HOLE_BASE + page;
+	}
 	wallpage = wallarea;
 	nonepage = wallarea + page + 16;
 	if (mprotect(wallarea + page, page, PROT_NONE) < 0) {
@@ -214,9 +244,9 @@ int main(void)
 		printf("SYMS");
 		for (i = 0; i < NFUNC; i++)
 			printf(" %lx", (unsigned long)funcs[i]);
-		printf(" tramp=%lx none=%lx wall=%lx strpool=%lx objpool=%lx argbuf_size=%d\n", mcount_return_fn,
+		printf(" tramp=%lx none=%lx wall=%lx strpool=%lx objpool=%lx hole=%lx argbuf_size=%d\n", mcount_return_fn,
 		       (unsigned long)nonepage, (unsigned long)(wallarea + page), (unsigned long)strpool,
-		       (unsigned long)objpool, ARGBUF_SIZE);
+		       (unsigned long)objpool, holepage, ARGBUF_SIZE);
 	}
 	dump_new_records(1); /* skip the warm-up records */
 
@@ -230,7 +260,17 @@ int main(void)
 		if (n < 1 || op[0] == '#')
 			continue;
 		opno++;
-		if (!strcmp(op, "T")) {
+		cur_opno = opno;
+		if (!strcmp(op, "STRAT")) {
+			unsigned char tmp[160];
+			char *dst = (char *)strtoull(a1, NULL, 16);
+			int len = unhex(a2, tmp, 150);
+
+			memcpy(dst, tmp, len);
+			dst[len] = 0;
+			printf("%d ok addr=%lx\n", opno, (unsigned long)dst);
+		}
+		else if (!strcmp(op, "T")) {
 			h1_now = strtoull(a1, NULL, 0);
 			printf("%d ok\n", opno);
 		}
